@@ -435,6 +435,10 @@ func ledgerGen(r *Rng, tier string, emit func(string)) {
 	}
 	for h := 0; h < nHist; h++ {
 		g := &genCtx{r: r, emit: emit, sweepKind: badKinds[h%len(badKinds)]}
+		if (profile == "c05" && h%3 == 1) || (profile != "c05" && h%12 == 7) {
+			tieHistory(g)
+			continue
+		}
 		genHistory(g, profile)
 	}
 }
@@ -487,6 +491,92 @@ func genHistory(g *genCtx, profile string) {
 	if r.Chance(30) {
 		g.emit("checkdb P")
 	}
+}
+
+// tieHistory (C05): pools of 13-19 pending transactions on 1-3 fee levels and of equal size, so that the
+// fee-per-kB priorities tie and only the hash tie-break orders them (and decides an equal-fee double spend);
+// block-size limits that cut the sorted list at various points.  Two rounds.
+func tieHistory(g *genCtx) {
+	r := g.r
+	g.prec, g.burn = 1, 2
+	g.avoidPending = true
+	gc := []uint64{3e6, 25e6, 1e9}[r.Intn(3)]
+	maxblk := []uint64{1024, 2048, 3072, 32768}[r.Intn(4)]
+	g.emit("reset arbF=0 gc=" + u(gc) + " gt=1000 burn=2 maxtxn=1024 maxblk=" + u(maxblk) + " prec=6 ubf=2 umax=1024 uprec=6")
+	if world == nil {
+		return
+	}
+	P := g.node("P")
+	uxs, headTime := spendable(P)
+	if len(uxs) == 0 {
+		return
+	}
+	gen := uxs[0]
+	gh, err := gen.CoinHours(headTime)
+	n := 13 + r.Intn(7)
+	levels := uint64(1 + r.Intn(3))
+	if err != nil || gh < uint64(20*n) || gen.Body.Coins < uint64(n*(n+2)) {
+		return
+	}
+	// fan-out block: n outputs with hours 2*fee, so that spending one needs a burn of exactly `fee`
+	var outs []coin.TransactionOutput
+	rem := gen.Body.Coins
+	each := gen.Body.Coins / uint64(n+1)
+	for i := 0; i < n; i++ {
+		c := each + uint64(i)
+		if i == n-1 {
+			c = rem
+		}
+		rem -= c
+		outs = append(outs, coin.TransactionOutput{Address: keys[i%6].addr, Coins: c, Hours: 2 * (1 + r.U64()%levels)})
+	}
+	fan := buildTxn(txnSpec{ins: coin.UxArray{gen}, outs: outs, signer: func(int) cipher.SecKey { return ownerKey(gen) }})
+	sb := forgeBlock(P, coin.Transactions{fan}, headTime+1+uint64(r.Intn(50)), 0, nil, secKey)
+	g.execBoth(&sb)
+	for round := 0; round < 2 && alive(); round++ {
+		uxs, headTime = spendable(P)
+		g.pending = nil
+		cnt := 0
+		for i, ux := range uxs {
+			h, err := ux.CoinHours(headTime)
+			if err != nil || h == 0 || addrIndex[ux.Body.Address] >= 6 {
+				continue
+			}
+			fee := (h + 1) / 2
+			mk := func(dst int) coin.Transaction {
+				return buildTxn(txnSpec{ins: coin.UxArray{ux},
+					outs:   []coin.TransactionOutput{{Address: keys[dst%6].addr, Coins: ux.Body.Coins, Hours: h - fee}},
+					signer: func(int) cipher.SecKey { return ownerKey(ux) }})
+			}
+			t := mk(i + 1)
+			g.inject(&t)
+			cnt++
+			if r.Chance(12) { // an equal-fee double spend: the lower hash must win
+				t2 := mk(i + 2)
+				g.inject(&t2)
+			}
+		}
+		if cnt == 0 {
+			break
+		}
+		if r.Chance(30) {
+			g.emit("refresh P")
+		}
+		g.emit("mkblock " + u(g.nextWhenSmall()))
+		if sb := lastMade; sb != nil {
+			lastMade = nil
+			g.execBoth(sb)
+		}
+	}
+	if alive() && r.Chance(50) {
+		g.emit("checkdb F")
+	}
+}
+
+// nextWhenSmall: a block time a few seconds after the head (no noticeable coin-hour accrual)
+func (g *genCtx) nextWhenSmall() uint64 {
+	hb, _ := g.node("P").v.GetHeadBlock()
+	return hb.Head.Time + 1 + uint64(g.r.Intn(30))
 }
 
 func u(v uint64) string { return strconv.FormatUint(v, 10) }
